@@ -1127,7 +1127,7 @@ impl MachineState {
                     }
                 }
                 Ok(Number::Integer(n)) => {
-                    let n: u32 = (&*n).try_into().unwrap();
+                    let n: u32 = (&*n).try_into().unwrap_or(u32::MAX);
                     if let Some(c) = std::char::from_u32(n) {
                         string.push(c);
                         continue;
@@ -2769,7 +2769,7 @@ impl Machine {
             _ => {
                 match Number::try_from((a2, &self.machine_st.arena.f64_tbl)) {
                     Ok(Number::Integer(n)) => {
-                        let n: u32 = (&*n).try_into().unwrap();
+                        let n: u32 = (&*n).try_into().unwrap_or(u32::MAX);
 
                         if std::char::from_u32(n).is_some() {
                             fixnum_as_cell!(Fixnum::build_with(n))
@@ -2952,7 +2952,7 @@ impl Machine {
             _ => {
                 match Number::try_from((a2, &self.machine_st.arena.f64_tbl)) {
                     Ok(Number::Integer(n)) => {
-                        let n: u32 = (&*n).try_into().unwrap();
+                        let n: u32 = (&*n).try_into().unwrap_or(u32::MAX);
                         let n = std::char::from_u32(n);
                         let c = match n {
                             Some(c) => c,
@@ -3190,7 +3190,7 @@ impl Machine {
         } else {
             match Number::try_from((addr, &self.machine_st.arena.f64_tbl)) {
                 Ok(Number::Integer(n)) => {
-                    let n: u32 = (&*n).try_into().unwrap();
+                    let n: u32 = (&*n).try_into().unwrap_or(u32::MAX);
                     let n = char::try_from(n);
                     if let Ok(c) = n {
                         write!(&mut stream, "{c}").unwrap();
@@ -3673,7 +3673,7 @@ impl Machine {
         } else {
             match Number::try_from((addr, &self.machine_st.arena.f64_tbl)) {
                 Ok(Number::Integer(n)) => {
-                    let n: u32 = (&*n).try_into().unwrap();
+                    let n: u32 = (&*n).try_into().unwrap_or(u32::MAX);
                     let n = std::char::from_u32(n);
 
                     if let Some(n) = n {
